@@ -113,3 +113,22 @@ func catch(f func()) (p string) {
 	f()
 	return ""
 }
+
+func readNDJSONRaw(path string, each func([]byte) error) error {
+	f, err := os.Open(path)
+	if err != nil {
+		return err
+	}
+	defer f.Close()
+	sc := bufio.NewScanner(f)
+	sc.Buffer(make([]byte, 1<<20), 1<<28)
+	for sc.Scan() {
+		if len(sc.Bytes()) == 0 {
+			continue
+		}
+		if err := each(append([]byte{}, sc.Bytes()...)); err != nil {
+			return err
+		}
+	}
+	return sc.Err()
+}
